@@ -43,3 +43,52 @@ Theorem C13_unknown_name_400 : forall v f d,
   list_rps_result v f d = None.
 Proof. exact c13_unknown_400. Qed.
 Print Assumptions C13_unknown_name_400.
+
+(* ---------------------------------------------------------------------------------------------------------------
+   From the query string.  decode_listing (Model/DecodeQ.v) is the front half of the handler: the query parameters as
+   webob delivers them (a list of decoded key/value pairs, repeats allowed), validated as dict(req.GET) against the query
+   schema of the version (REGENERATED schemas, Gen/GenSchemas.v), then read exactly as list_resource_providers reads them
+   (last value of uuid / name / in_tree / resources, all values of member_of, all values of required from 1.39 and the
+   last one before) through the value parsers of Model/Parse.v.  Tokenizers are arbitrary.  Tied to the code by calling
+   the REAL handler on generated query strings and capturing the filters it passes on (harness/decodeq.py). *)
+From PV Require Import Model.Parse Model.Json Model.DecodeQ Spec.Fields Proofs.C13q.
+
+(* no query string makes the front half end in an exception other than 400 *)
+Theorem C13_query_never_escapes : forall (tok_rp tok_agg tok_trait tok_rc tok_name : str -> Z) v kv,
+  decode_listing tok_rp tok_agg tok_trait tok_rc tok_name v kv <> PEscape.
+Proof. exact c13q_never_escapes. Qed.
+Print Assumptions C13_query_never_escapes.
+
+(* the hypothesis rp_filters_wf of the theorems above is DERIVED: whatever the front half accepts at version v satisfies
+   the version gates (schemas: which parameters exist at v; parsers: forbidden traits 1.22, repeated member_of 1.24,
+   forbidden aggregates 1.32, any-of traits 1.39; amounts >= 1) *)
+Theorem C13_query_accepted_wf : forall (tok_rp tok_agg tok_trait tok_rc tok_name : str -> Z) v kv f,
+  decode_listing tok_rp tok_agg tok_trait tok_rc tok_name v kv = POk f -> rp_filters_wf v f = true.
+Proof. exact c13q_accepted_wf_any. Qed.
+Print Assumptions C13_query_accepted_wf.
+
+(* exactly when the front half answers 400 *)
+Theorem C13_query_rejected_iff : forall (tok_rp tok_agg tok_trait tok_rc tok_name : str -> Z) v kv,
+  decode_listing tok_rp tok_agg tok_trait tok_rc tok_name v kv = P400 <->
+  validate (schema_of_get_rps v) (qdict kv) = false \/
+  has_key qk_member_of kv = true /\
+    normalize_member_of_qs_params v (getall qk_member_of kv) = Raise HTTPBadRequest \/
+  has_key qk_required kv = true /\
+    normalize_traits_qs_params v (getall qk_required kv) = Raise HTTPBadRequest \/
+  (exists x : str, get_last qk_resources kv = Some x /\ normalize_resources_qs_param x = Raise HTTPBadRequest).
+Proof. exact c13q_rejected_iff. Qed.
+Print Assumptions C13_query_rejected_iff.
+
+(* C13_exact from the query string *)
+Theorem C13_exact_from_query : forall (tok_rp tok_agg tok_trait tok_rc tok_name : str -> Z) v kv f d,
+  decode_listing tok_rp tok_agg tok_trait tok_rc tok_name v kv = POk f ->
+  filters_known d f -> NoDup (map rp_uuid (rps d)) ->
+  forall u, In u (list_rps v f d) <-> (exists r, find_rp d u = Some r) /\ rp_matches v f d u = true.
+Proof. exact c13q_listing_exact. Qed.
+Print Assumptions C13_exact_from_query.
+
+Theorem C13_400_from_query : forall (tok_rp tok_agg tok_trait tok_rc tok_name : str -> Z) v kv f d,
+  decode_listing tok_rp tok_agg tok_trait tok_rc tok_name v kv = POk f ->
+  list_rps_result v f d = None <-> names_known d f = false.
+Proof. exact c13q_listing_400_iff. Qed.
+Print Assumptions C13_400_from_query.
